@@ -772,3 +772,56 @@ def _phi_alts_(t):
 def c10_k(ctx):
     from .base import inherited_dtype_obligation
     inherited_dtype_obligation(ctx)
+
+
+_GP = 'elfi.methods.bo.gpy_regression:GPyRegression'
+_C10_GUARDS = [
+    (_GP + '.update', 'self._init_gp(_x, _y)', [('self._gp is None', True)],
+     'the first evidence initialises the GP'),
+    (_GP + '.update', 'assign:np.r_[self._gp.X, _x]', [('self._gp is None', False)],
+     'later evidence is appended after the evidence the GP already holds'),
+    (_GP + '.update', 'assign:np.r_[self._gp.Y, _y]', [('self._gp is None', False)],
+     'later targets are appended after the targets the GP already holds'),
+    (_GP + '.update', 'self.optimize()', [('optimize', True)],
+     'hyper-parameters are optimised exactly when asked'),
+]
+
+
+@obligation('C10-l', 'T11 T3', 'adding evidence: the first batch initialises the GP, later batches '
+            'are appended after the stored evidence, kernel / noise / mean function of the '
+            'current GP are carried over, optimisation only on request (frozen table of {} rows '
+            'plus the rebuild call)'.format(len(_C10_GUARDS)), floor=len(_C10_GUARDS) + 1,
+            necessary='evidence appended on the wrong side of the test is lost (the GP is '
+                      're-initialised with the new batch only); a rebuilt GP without the current '
+                      'kernel forgets the optimised hyper-parameters')
+def c10_l(ctx):
+    from .base import check_guard_table, bind_args
+    check_guard_table(ctx, _C10_GUARDS)
+    gp = ctx.cls(_GP)
+    up = ctx.own_method(gp, 'update')
+    ex = ctx.ex(up)
+    mk = gp.lookup('_make_gpy_instance')
+    calls = ctx.calls(up, 'self._make_gpy_instance(*_)')
+    ok = len(calls) == 1 and mk is not None
+    if ok:
+        b = bind_args(calls[0], mk)
+        ok = b is not None and {'x', 'y', 'kernel', 'noise_var', 'mean_function'} <= set(b)
+        if ok:
+            t = dict((k, ex.term(v)) for (k, v) in b.items())
+            ok = match(t['x'], pattern('np.r_[self._gp.X, _x]')) is not None and \
+                match(t['y'], pattern('np.r_[self._gp.Y, _y]')) is not None and \
+                match_any(t['kernel'], ('self._gp.kern.copy() if self._gp.kern else None',
+                                        'self._gp.kern.copy()')) is not None and \
+                match(t['noise_var'], pattern('self._gp.Gaussian_noise.variance[0]')) is not None \
+                and match_any(t['mean_function'],
+                              ('self._gp.mean_function.copy() if self._gp.mean_function else None',
+                               'self._gp.mean_function.copy()')) is not None
+        st = getattr(calls[0], '_parent', None)
+        ok = ok and isinstance(st, ast.Assign) and \
+            match(ex.term(st.targets[0]), pattern('self._gp')) is not None
+    ctx.check(ok, up, 'GP rebuilt from (old + new evidence, current kernel, noise, mean function)',
+              'self._gp = self._make_gpy_instance(r_[X, x], r_[Y, y], kernel=kern.copy(), '
+              'noise_var=variance[0], mean_function=...)',
+              'the GP is not rebuilt from the stored evidence followed by the new one together '
+              'with the current kernel, noise variance and mean function', fn=up,
+              node=calls[0] if calls else up.node)
